@@ -1058,6 +1058,12 @@ class GMRFVectorModel(object):
 
     def _increment(self, data, verbose):
         data = _as_floating(data)
+        if data.ndim != 2 or data.shape[1] != self.n_features:
+            # refuse before anything is discarded or updated
+            raise ValueError(
+                "Samples must be vectors of {} features; data of shape {} "
+                "is given.".format(self.n_features, data.shape)
+            )
         # Empty memory
         self.precision = 0
 
